@@ -75,6 +75,8 @@ def kw_text(k):
         return "NEXTSTEP\n %d /\n" % k["v"]
     if n == "RPTRST":
         return "RPTRST\n BASIC=%d /\n" % k["v"]
+    if n == "ACTIONX":
+        return "ACTIONX\n %s 10 /\n FOPR > 0 /\n/\n%sENDACTIO\n" % (k["name"], "".join(kw_text(b) for b in k["body"]))
     raise ValueError(n)
 
 
